@@ -63,6 +63,7 @@ type Frame struct {
 	SizeMismatch bool
 	// KernelTotal: a legacy stream ended with the kernel-style total size word.
 	KernelTotal bool
+	Stats       BlockStats
 	// FollowedByFrame: a legacy frame ended because another frame's magic
 	// number follows (frame concatenation, which a one-frame reader need not
 	// support).
@@ -133,6 +134,9 @@ func Parse(b []byte, opt ParseOpt) *Frame {
 	}
 	need := func(n int) bool { return len(b)-pos >= n }
 	add := func(kind string, n, blk int) {
+		if len(f.Fields) > 1<<16 && (kind == "skmagic" || kind == "sklen" || kind == "skdata") {
+			return // very long runs of skippable frames: the map stays bounded
+		}
 		f.Fields = append(f.Fields, Field{kind, pos, n, blk})
 	}
 	var magic uint32
@@ -299,7 +303,7 @@ func Parse(b []byte, opt ParseOpt) *Frame {
 				dict = window
 			}
 			var err error
-			dec, err = DecodeBlock(stored, dict, f.BlockMax)
+			dec, err = DecodeBlockStats(stored, dict, f.BlockMax, &f.Stats)
 			if err != nil {
 				pos = blk.Off + 4
 				return fail("bdata", fmt.Errorf("block %d: %w", bi, err))
@@ -383,7 +387,9 @@ func parseLegacy(f *Frame, b []byte, pos int, opt ParseOpt) *Frame {
 		}
 		w := binary.LittleEndian.Uint32(b[pos:])
 		if w == MagicLegacy {
-			f.Fields = append(f.Fields, Field{"lmagic", pos, 4, -1})
+			if len(f.Fields) <= 1<<16 {
+				f.Fields = append(f.Fields, Field{"lmagic", pos, 4, -1})
+			}
 			pos += 4
 			continue
 		}
